@@ -110,7 +110,10 @@ def exec_law(rec):
         prm = {'alpha': rec['alpha']}
         laws = []
         F = rec['bil']
-        A = BilinearForm(fem.bilinear_callable(F, accs, len(bu.basis[0]))).assemble(bu, bv, **dict(kw), **prm)
+        # the matrix gets the raw coefficient vector (interpolated by the code with the trial basis, form.py),
+        # the functional the pre-interpolated field ubasis.interpolate(vector)
+        kwA = {'c': np.array(rec['cvec'], dtype=np.float64)} if rec.get('cvec') is not None else {}
+        A = BilinearForm(fem.bilinear_callable(F, accs, len(bu.basis[0]))).assemble(bu, bv, **kwA, **prm)
         fcall = fem.functional_callable(F, accs, 'uh', 'vh')
         fun = Functional(fcall)
         fabs = Functional(lambda w: np.abs(fcall(w)))
